@@ -13,16 +13,20 @@ def run(tier, seed, replay=None, pid="C04"):
     ck = vlib.Check(pid, tier, seed, "model_checking")
     binary = vlib.build_harness()
     kinds = ALL if pid == "C04" else BODY
+    if pid == "C04" and tier != "quick":
+        # two faulty syncs in a row: one kind of each family (status, not-found, transport, cancellation, hook, body); every kind
+        # singly and in pairs at consecutive requests in the runs below
+        kinds = '{"s500","s404","reset","cancel","hookfail","truncated"}'
     # quick: one faulty sync, with a second fault at the next request from a small set of kinds; thorough: two faulty syncs in a row
     # (single faults), and -- C04 -- one faulty sync with every pair of kinds
-    c = dict(N=3, Segs="{0,1,2}", Kinds=kinds, MaxFaulty=1 if tier == "quick" else 2, FIXED=True, EXPORT=True, MaxAddrs=1 if (pid == "C02" and tier != "quick") else 2,
+    c = dict(N=3, Segs="{0,1,2}", Kinds=kinds, MaxFaulty=1 if tier == "quick" else 2, FIXED=True, EXPORT=True, MaxAddrs=1 if tier != "quick" else 2,     # thorough: two faulty syncs in a row with one address, two addresses in a run of their own
              PairKinds='{"stall","s500"}' if (pid == "C04" and tier == "quick") else "{}", Depths="{0}")
     r = vlib.tlc("SyncFaults", (pid + ".cfg", vlib.cfg_text(c, INV)), timeout=7000, tag=pid.lower(), extra=["-maxSetSize", "8000000"])
     ck.add_tlc("SyncFaults", r, "mode x trigger x segment size x fault kind x request index (%d faulty sync(s)) then a clean sync: store sound, "
                "failure leaves latest/notifications/cache as required, clean retry converges" % c["MaxFaulty"])
-    if pid == "C02" and tier != "quick":
+    if tier != "quick":
         # two faulty syncs in a row are explored with one address; a publisher given with two addresses with one faulty sync
-        ra = vlib.tlc("SyncFaults", ("C02addrs.cfg", vlib.cfg_text(dict(c, MaxFaulty=1, MaxAddrs=2), INV)), timeout=7000, tag="c02addrs")
+        ra = vlib.tlc("SyncFaults", (pid + "addrs.cfg", vlib.cfg_text(dict(c, MaxFaulty=1, MaxAddrs=2, Kinds=ALL if pid == "C04" else BODY), INV)), timeout=7000, tag=pid.lower() + "addrs")
         ck.add_tlc("SyncFaults/two-addresses", ra, "one faulty sync against a publisher given with two addresses (body faults do not make the client fail over)")
         with open(os.path.join(r.workdir, "c04_behaviours.ndjson"), "a") as f:
             f.write(open(os.path.join(ra.workdir, "c04_behaviours.ndjson")).read())
@@ -36,7 +40,7 @@ def run(tier, seed, replay=None, pid="C04"):
             f.write(open(os.path.join(rd.workdir, "c04_behaviours.ndjson")).read())
         shutil.rmtree(rd.workdir, ignore_errors=True)
     if pid == "C04" and tier == "thorough":
-        r2 = vlib.tlc("SyncFaults", ("C04pairs.cfg", vlib.cfg_text(dict(c, MaxFaulty=1, PairKinds=ALL), INV)), timeout=7000, tag="c04pairs", extra=["-maxSetSize", "8000000"])
+        r2 = vlib.tlc("SyncFaults", ("C04pairs.cfg", vlib.cfg_text(dict(c, MaxFaulty=1, PairKinds=ALL, Kinds=ALL), INV)), timeout=7000, tag="c04pairs", extra=["-maxSetSize", "8000000"])
         ck.add_tlc("SyncFaults/pairs", r2, "one faulty sync with every pair of fault kinds at two consecutive requests")
         with open(os.path.join(r.workdir, "c04_behaviours.ndjson"), "a") as f:
             f.write(open(os.path.join(r2.workdir, "c04_behaviours.ndjson")).read())
@@ -51,7 +55,7 @@ def run(tier, seed, replay=None, pid="C04"):
     if pid == "C02":
         args += ["-all-digests", "-variants", "2" if tier == "quick" else "4"]
     else:
-        args += ["-variants", "2" if tier == "quick" else "4"]
+        args += ["-variants", "2" if tier == "quick" else "3"]
     if tier == "thorough":
         args += ["-quiet-ms", "40"]
     rep = vlib.run_harness(binary, args, timeout=14000)
